@@ -10,6 +10,7 @@ from ..ref.bintrie import BLANK, RefBin, bits_of
 from ..util import Info, Raised, expect, expect_eq, impl
 
 ID = "C12"
+ATHERIS = True  # thorough tier: coverage-guided second engine over the same strategy/run_case
 LEVEL = "exploration"
 BUDGET = {"quick": 12000, "thorough": 1000000}
 RULE = (
